@@ -870,15 +870,16 @@ type levelIterator struct {
 }
 
 func (b *levelBucket) NewIterator(slice *db.Range) db.Iterator {
-	if slice == nil {
-		slice = &db.Range{}
+	// work on a private Range: the caller's one must stay usable for another iterator
+	var start, limit []byte
+	if slice != nil {
+		start, limit = slice.Start, slice.Limit
 	}
-	slice.Start = b.innerKeyForIterator(slice.Start)
-	if len(slice.Limit) == 0 {
-		limit := b.innerKeyForIterator(slice.Limit)
-		slice.Limit = db.BytesPrefix(limit).Limit
+	slice = &db.Range{Start: b.innerKeyForIterator(start)}
+	if len(limit) == 0 {
+		slice.Limit = db.BytesPrefix(b.innerKeyForIterator(nil)).Limit
 	} else {
-		slice.Limit = b.innerKeyForIterator(slice.Limit)
+		slice.Limit = b.innerKeyForIterator(limit)
 	}
 
 	it := &levelIterator{
